@@ -382,8 +382,12 @@ func (h *hist) mutate(f []string) (string, int64) {
 	case "rottok":
 		plain, err := am.RotateToken(ctx, i64(f[1]))
 		if err == nil {
+			// in cluster mode a rotation of a token the FSM does not know "succeeds" without rotating
+			// anything: keep whichever plaintext actually authenticates as this token
 			if _, ok := h.plain[i64(f[1])]; ok {
-				h.plain[i64(f[1])] = plain
+				if ti := am.VerifyToken(plain); ti != nil && ti.ID == i64(f[1]) {
+					h.plain[i64(f[1])] = plain
+				}
 			}
 		}
 		return classify(err), 0
